@@ -59,4 +59,11 @@ CHECKS = {
         technique="runtime monitoring: ast-located source-segment preservation monitor + plain re-execution oracle over generated mixed managed/unmanaged displays",
         ref="DESIGN.md section 4 C10",
     ),
+    "C14": dict(
+        level="exploration",
+        text="Two-module programs with up to 40 call sites in eight placement forms (incl. several per line and per frame, closures created twice, comprehensions, module level, helper arguments, methods) are driven by one random global interleaving of 1-6 evaluations per site; observations are tagged with the site id so that any leak between sites shows up in the written value. Monitors: size of the session's snapshot table vs number of textual sites, and each rewritten argument (plain-evaluated) vs the model aggregate of exactly its own observations; ten changed-argument programs x three flag sets must raise UsageError at the second evaluation and must not crash session end.",
+        note="In-process driver keeps code objects alive like pytest keeps imported modules.",
+        technique="runtime monitoring: self-identifying observations + snapshot-table probe + per-site aggregate oracle under random interleavings",
+        ref="DESIGN.md section 4 C14",
+    ),
 }
